@@ -2,3 +2,5 @@ import PenneModel.Sexp
 import PenneModel.Skel
 import PenneModel.Scope.Labels
 import PenneModel.Props.C04
+import PenneModel.Place.Syntax
+import PenneModel.Props.C06
